@@ -139,6 +139,15 @@ bool index_read(zckCtx *zck, char *data, size_t size, size_t max_length) {
         }
         new->length = chunk_length;
 
+        /* Offsets, sizes and the total file length are reported as ssize_t, so
+         * make sure they fit instead of letting the running total wrap */
+        size_t hdr_len = zck->lead_size + zck->header_length;
+        if(hdr_len > SSIZE_MAX || idx_loc > SSIZE_MAX - hdr_len ||
+           new->comp_length > SSIZE_MAX - hdr_len - idx_loc ||
+           new->length > SSIZE_MAX) {
+            set_fatal_error(zck, "Chunk %i's size is too large", count);
+            return false;
+        }
         new->zck = zck;
         new->valid = 0;
         new->number = count;
